@@ -90,6 +90,7 @@ def check(ctx):
     ppx.scenario_batch(ctx, "C04", 80 if q else 1500, "c04sc")
     caller_keys(ctx)
     empty_groups(ctx)
+    near_predefined(ctx)
     ppx.known_finding_replay(ctx, "C04", "D4-elsif-predefined", ppx.PC({"top.sv": D4_WITNESS}),
                              lambda rr: rr.ok and b"B" in (rr.text or b""))
 
@@ -122,6 +123,44 @@ def empty_groups(ctx):
     ctx.obl("search-oracle:chains with empty branches, alone and inside discarded regions", "oracle", bad is None, bad[1] if bad else "")
     if bad:
         rp = write_replay(ctx, "pp-" + sha(bad[0])[:8], {"property": "C04", "kind": "empty-groups", "files": {"top.sv": bad[0]}, "why": bad[1]})
+        ctx.viol.append(Violation("conditional compilation keeps the wrong text: " + bad[1], rp))
+
+
+def near_predefined(ctx):
+    """names that only BEGIN like `__FILE__ / `__LINE__ are ordinary macro names: undefined until defined, defined after"""
+    progs = [
+        ("`ifdef __FILE__GUARD\nearly\n`endif\n`ifndef __LINE__X\nnot_yet\n`endif\n`define __FILE__GUARD 1\n`ifdef __FILE__GUARD\ng_yes\n`else\ng_no\n`endif\n"
+         "`undef __FILE__GUARD\n`ifdef __FILE__GUARD\nstale\n`else\nlast\n`endif\n", ["not_yet", "g_yes", "last"]),
+        ("`ifdef __LINE__\nline_is\n`endif\n`ifdef __FILE__\nfile_is\n`endif\n`ifdef __LINE__2\nno\n`elsif __FILE__S\nno2\n`else\nnone\n`endif\n",
+         ["line_is", "file_is", "none"]),
+        ("`define __LINE__N 7\n`ifndef __LINE__N\nwrong\n`else\nn_def\n`endif\n`ifdef _LINE__\nw2\n`endif\n`ifdef __LINE_\nw3\n`endif\n", ["n_def"]),
+    ]
+    cases = []
+    for i, (t, want) in enumerate(progs):
+        for entry in ("preprocess", "preprocess_str"):
+            c = Case("np%d_%s" % (i, entry)).add("file", hx("top.sv"), hx(t))
+            c.add("opt", "strip", 0).add("opt", "ignore", 0).add("want", "text")
+            if entry == "preprocess":
+                c.add("run", "preprocess", hx("top.sv"))
+            else:
+                c.add("run", "preprocess_str", hx(t), hx("top.sv"), 0, 0)
+            cases.append((c, t, want))
+    impl = run_harness("api", [c for c, _, _ in cases], "c04np")
+    bad = None
+    for c, t, want in cases:
+        lines = impl.get(c.id) or []
+        ctx.corr_cases += 1
+        tx = [l for l in lines if l.startswith("text ")]
+        if crashed(lines) or not tx:
+            bad = bad or (t, "no output: %s" % lines[:3]); continue
+        # `define / `undef lines of active regions stay in the output; what is compared are the other tokens
+        got = " ".join(l for l in unhx(tx[0].split()[1]).decode("utf-8", "replace").split("\n") if not l.startswith("`")).split()
+        ctx.corr_nontrivial.add(sha(c.text()))
+        if got != want:
+            bad = bad or (t, "surviving tokens %s, expected %s" % (got, want))
+    ctx.obl("search-oracle:names that begin like `__FILE__ / `__LINE__ are ordinary names", "oracle", bad is None, bad[1] if bad else "")
+    if bad:
+        rp = write_replay(ctx, "np-" + sha(bad[0])[:8], {"property": "C04", "kind": "near-predefined", "files": {"top.sv": bad[0]}, "why": bad[1]})
         ctx.viol.append(Violation("conditional compilation keeps the wrong text: " + bad[1], rp))
 
 
